@@ -38,7 +38,14 @@ Break and Exit into BASIC behaviour; anything else escapes.  Decided:
     in-memory streams, or is in the exemption table (C01 does not quantify
     over host I/O faults);
  E8 operator callbacks type-check each operand before using it as a number
-    (IMP with a string operand raised AttributeError; repaired in 195a4d61).
+    (IMP with a string operand raised AttributeError; repaired in 195a4d61);
+ E9 possibly-unbound locals: a definite-assignment analysis of every function
+    under pcbasic/basic reports each read of a local that is not assigned on
+    every path to it (UnboundLocalError).  The analysis is path-insensitive, so
+    correlated-condition idioms are listed, one reason each, in a frozen table;
+    a site that is not in the table is a violation.  On the pinned tree this
+    found LOAD of a protected file without payload (unprotect: `c`, repaired in
+    a4516a99) and OPEN "CON" FOR APPEND (`dev_param`, repaired in ebb54d70).
 Not decided: exceptions raised implicitly by arbitrary Python operations
 outside these patterns -- no sound static argument in reach bounds those.
 """
@@ -526,7 +533,52 @@ def check_e8(ctx, rep):
     rep.floor('E8.operand-type-checked', n, 20, 'operator callbacks')
 
 
+E9_TABLE = {
+    ('protect', 's'): 'the program stream always holds at least the terminator, so the loop runs',
+    ('COMFile.read_line', 'c'): '`out` starts empty, so the `while len(out) < 255` loop runs at least once',
+    ('Display._set_mode', 'saved_buffer'): 'assigned and used under the same `if not erase` (parameter, not re-assigned)',
+    ('Display._set_mode', 'saved_addr'): 'assigned and used under the same `if not erase`',
+    ('Graphics._draw_circle', 'coo0x'): 'used only if line0, i.e. a start angle was given; its octant coordinate coo0 lies in the scanned range 0..r/sqrt(2) (3000 random pie slices drawn while triaging)',
+    ('Graphics._draw_circle', 'coo1x'): 'as coo0x, for the end angle',
+    ('Graphics._check_scanline', 'repeated_back'): 'assigned and used under the same `if bg_tile`',
+    ('Graphics.put_', 'rect'): 'operation_token is one of the five tokens the PUT syntax admits (require_read) or defaults to XOR',
+    ('Graphics.point_', 'point'): 'fn is range-checked to 0..3 and the two branches cover (0, 1) and (2, 3)',
+    ('Graphics.pmap_', 'value'): 'mode is range-checked to 0..3 and the branches cover 0, 1, 2, 3',
+    ('Shell._communicate', 'c'): 'not decided: needs Ctrl+Break as the very first event inside an interactive SHELL, which talks to a host process; could not be driven from a Session while triaging',
+    ('Arrays.dereference', 'name'): 'found_name is set only inside the loop, so the loop ran (since 055d05f1 the loop variable is no longer read after the loop)',
+    ('Parser._parse_circle', 'count_args'): '`for count_args in range(4)` always runs',
+    ('Parser._parse_paint', 'last'): '_parse_pair always yields two values',
+    ('Parser._parse_paint', 'count_args'): '`for count_args in range(3)` always runs',
+    ('Parser._parse_view', 'fill'): 'read only when fill_comma is true, which is set in the branch that assigns fill (short-circuit `and`)',
+    ('Sound.sound_', 'dur'): 'assigned when command is None; when command is not None the function returns before the read',
+    ('Sound.sound_', 'freq'): 'as dur',
+    ('Sound.sound_', 'volume'): 'as dur',
+    ('Sound.sound_', 'voice'): 'as dur',
+}
+
+
+def check_e9(ctx, rep):
+    from ..defassign import possibly_unbound
+    n_fn = n_hit = 0
+    seen = set()
+    for fn in ctx.idx.functions('pcbasic/basic/'):
+        n_fn += 1
+        who = qualname(fn).split(':')[1]
+        for name, line in possibly_unbound(fn):
+            n_hit += 1
+            key = (who, name)
+            seen.add(key)
+            reason = E9_TABLE.get(key)
+            rep.ob('E9.possibly-unbound-local', '%s: local `%s`' % (who, name), reason is not None,
+                   reason or 'the local is read on a path on which it was never assigned (assigned only inside a loop or branch that may be skipped): UnboundLocalError',
+                   '%s (line %s)' % (qualname(fn), line))
+    rep.floor('E9.possibly-unbound-local', n_fn, 1500, 'functions analysed')
+    rep.note('E9.sites', n_hit)
+    rep.note('E9.table_entries_unused', sorted('%s:%s' % k for k in set(E9_TABLE) - seen))
+
+
 def check(ctx, rep):
+    check_e9(ctx, rep)
     check_e1(ctx, rep)
     check_e2(ctx, rep)
     check_e3(ctx, rep)
@@ -565,6 +617,10 @@ def variants(ctx):
         Va('imp-operand-unchecked', 'break', V,
            in_fn('imp_', lambda fn: mu.replace_expr(fn, mu.text_is('to_integer(right)'), 'right.to_integer()')), expect='E8'),
         Va('float-safe-narrowed', 'break', V, in_fn('float_safe', _only_arithmetic), expect='E3.float_safe'),
+        Va('unprotect-returns-unbound', 'break', 'pcbasic/basic/converter/protect.py',
+           in_fn('unprotect', lambda fn: mu.remove_stmt(fn, mu.text_is('c = 0'))), expect='E9'),
+        Va('con-append-unbound', 'break', 'pcbasic/basic/devices/files.py',
+           in_fn('Files._get_device_param', lambda fn: mu.remove_stmt(fn, lambda st: isinstance(st, ast.Raise) and 'BAD_FILE_MODE' in norm(st))), expect='E9'),
         Va('neutral-try-widened', 'neutral', INTERP,
            in_fn('Interpreter.iterate_loop', lambda fn: mu.replace_expr(fn, lambda n: isinstance(n, ast.Name) and n.id == 'OverflowError', 'ArithmeticError'))),
     ]
